@@ -33,8 +33,8 @@ MANIFEST = {
             "for a non-float view before IndexError / ZeroDivisionError of the centred shifts before IndexError / ValueError / "
             "RuntimeError of the dtype test and of torch), the exact acceptance condition (validate_ok_iff, "
             "validate_ok_iff_complex), fft2 and ifft2 reject exactly the same calls. "
-            "CALL SITES AND RE-IMPLEMENTATIONS: all 80 calls of fft2 / ifft2 / forward_operator / backward_operator under direct/ "
-            "are scanned into a Lean table; for every table passing the decidable predicate (dim = distinct non-negative axis "
+            "CALL SITES AND RE-IMPLEMENTATIONS: every call of fft2 / ifft2 / forward_operator / backward_operator under direct/ (80 on "
+            "the current tree) is scanned into a Lean table; for every table passing the decidable predicate (dim = distinct non-negative axis "
             "pairs/triples, only the three flags overridden) every call is accepted by the glue (site_accepted) and the inverse "
             "law and the closed form apply (callsite_laws); the numpy re-implementations (fake.fft, fake.ifft, "
             "SheppLoganDataset.fft) are translated into plans, and a plan passing Reimpl.ok computes exactly fft2/ifft2 "
@@ -46,7 +46,8 @@ MANIFEST = {
             "plans / purity facts / call-site table (bridge lemmas) and by differential correspondence (exact on labelled tensors "
             "for the shifts; exact symbolic root-of-unity answers vs torch under 1e-5 for fft2/ifft2, for the numpy "
             "re-implementations and for torch.fft.fftn/ifftn alone on unit impulses; exception class names on single and double "
-            "faults).",
+            "faults); a model/implementation disagreement on a protocol line is itself reported as the concrete failing input "
+            "(search hook, replay re-runs the line).",
     "note": "Trusted: Lean kernel (+propext, Classical.choice, Quot.sound), the AST translator / scanners, and ONE assumption about "
             "the external transform: torch.fft.fftn/ifftn(x, dim=dims, norm) is the composition of the 1-D DFTs along the axes of "
             "dims with the per-axis scale of the norm. It is checked on every run (a) exactly: every unit impulse of a fixed set "
